@@ -79,6 +79,12 @@ class Lib:
             return TOP
         return None
 
+    def compare(self, it, n, left, comps):
+        return None
+
+    def store_subscript(self, it, target, val, env, aug):
+        return False
+
     # ---- attributes ------------------------------------------------------
     def attribute(self, it, n, base, env):
         a = n.attr
@@ -197,9 +203,11 @@ class Lib:
                             if dotted.startswith("numpy") else a0
                     if dotted.startswith("copy."):
                         return a0
-            if dotted in ("numpy.zeros", "numpy.ones", "numpy.empty",
+            if dotted in ("numpy.empty", "numpy.empty_like"):
+                return AV(num="obj", cls="empty")
+            if dotted in ("numpy.zeros", "numpy.ones",
                           "numpy.zeros_like", "numpy.ones_like",
-                          "numpy.empty_like", "numpy.full"):
+                          "numpy.full"):
                 dt = kwargs.get("dtype")
                 return container(FLOAT, cls="ndarray")
             if dotted == "numpy.prod":
